@@ -124,6 +124,9 @@ func parseProxy(s string) (Proxy, error) {
 	if err != nil {
 		return noProxy, fmt.Errorf("split host:port: %w", err)
 	}
+	if host == "" || strings.ContainsFunc(host, isBlankOrControl) {
+		return noProxy, fmt.Errorf("invalid host %q", host)
+	}
 	if _, err := strconv.ParseUint(port, 10, 16); err != nil {
 		return noProxy, fmt.Errorf("invalid port %q", port)
 	}
@@ -132,6 +135,11 @@ func parseProxy(s string) (Proxy, error) {
 		Host: host,
 		Port: port,
 	}, nil
+}
+
+// isBlankOrControl reports whether r is a blank or an ASCII control character.
+func isBlankOrControl(r rune) bool {
+	return r <= ' ' || r == 0x7f
 }
 
 func parseMode(s string) Mode {
